@@ -68,6 +68,8 @@ BOUNDS_C = ("for every optional start / end (any isize) and every length: Ok((s,
 for _n in ["both_shared", "left_shared", "right_shared", "unique"]:
     OBS["hash_union_small_" + _n] = dict(kind="bounded", bound="one-entry maps with the SAME key and different values (the smallest maps that distinguish the operand order)", functions=["hm_union"],
                                          contract="hm_union: " + C + "; the value of a common key is the LEFT map's")
+OBS["vector_set_index_total"] = dict(kind="proof", functions=["immutable_vector_set"], props=["C07", "C03"],
+    contract="for EVERY index (any usize), vector shared or not: an index below the length yields the functional update of exactly that element, an index at or beyond the length is an error value - never a panic; another holder observes nothing")
 OBS["bounds_mut_contract"] = dict(kind="bounded", bound="slices of length <= 4 (bounds are any isize)", functions=["bounds_mut"], contract=BOUNDS_C, props=["C07", "C01"])
 OBS["bounds_contract"] = dict(kind="bounded", bound="vectors of length <= 2 (bounds are any isize)", functions=["bounds"], contract=BOUNDS_C, props=["C07", "C01"])
 
